@@ -194,6 +194,9 @@ func c11(g *Gen) {
 				if !strings.Contains(firstDigest, "doc ") {
 					problems = append(problems, "no comment at all was delivered for the requested packages")
 				}
+				if strings.Contains(firstDigest, "REQUESTED PACKAGE WITHOUT DIRECTORY") {
+					problems = append(problems, "a requested package has no directory: "+firstDigest[strings.Index(firstDigest, "REQUESTED PACKAGE WITHOUT DIRECTORY"):][:80])
+				}
 			} else if c11lastDigest != firstDigest {
 				problems = append(problems, fmt.Sprintf("history %v (early universe %v) delivers other comments for the requested packages than the first history", groups, early))
 			}
